@@ -1,4 +1,4 @@
-from typing import Dict, Optional
+from typing import Dict, List, Optional
 
 from . import ast
 from .grammar import ODataLexer, ODataParser  # type: ignore
@@ -37,20 +37,50 @@ class AliasRewriter(NodeTransformer):
             parser.parse(lexer.tokenize(k)): parser.parse(lexer.tokenize(v))
             for k, v in self.field_aliases.items()
         }
+        # Variables bound by the lambdas we are currently inside of. These
+        # refer to the lambda's items, not to fields, so they are never aliases.
+        self._bound_identifiers: List[ast.Identifier] = []
 
     def visit_Identifier(self, node: ast.Identifier) -> ast._Node:
         """:meta private:"""
+        if node in self._bound_identifiers:
+            return node
         if node in self.replacements:
             return self.replacements[node]
         return node
 
     def visit_Attribute(self, node: ast.Attribute) -> ast._Node:
         """:meta private:"""
+        root: ast._Node = node
+        while isinstance(root, ast.Attribute):
+            root = root.owner
+        if root in self._bound_identifiers:
+            return node
+
         if node in self.replacements:
             return self.replacements[node]
         else:
             new_owner = self.visit(node.owner)
             return ast.Attribute(new_owner, node.attr)
+
+    def visit_Call(self, node: ast.Call) -> ast._Node:
+        """:meta private:"""
+        # The function name is not a field reference, only rewrite the arguments:
+        return ast.Call(node.func, [self.visit(arg) for arg in node.args])
+
+    def visit_NamedParam(self, node: ast.NamedParam) -> ast._Node:
+        """:meta private:"""
+        # The parameter name is not a field reference, only rewrite its value:
+        return ast.NamedParam(node.name, self.visit(node.param))
+
+    def visit_Lambda(self, node: ast.Lambda) -> ast._Node:
+        """:meta private:"""
+        self._bound_identifiers.append(node.identifier)
+        try:
+            expression = self.visit(node.expression)
+        finally:
+            self._bound_identifiers.pop()
+        return ast.Lambda(node.identifier, expression)
 
 
 class IdentifierStripper(NodeTransformer):
